@@ -48,6 +48,10 @@ TOL_POSE0 = 1e-12     # kinematics only (no inertia involved): observed <= ~1e-1
 # tensor, 2e-7 on 200-step trajectories), so the dynamic comparison for fusestatic uses a wider tolerance
 TOL_KIND = {"fusestatic": 1e-4}
 TOL_ROT = 1e-12
+# attach vs inline with Python-computed quaternions and radians: body / geom / camera poses, qpos0, qpos_spring, jnt_range,
+# inertias of the two compiled models (observed <= 1e-14; the inertia eigen-decomposition is only accurate to ~1e-6 for
+# near-degenerate tensors, see above)
+TOL_ATTACH_STATIC = 1e-6
 
 
 # ------------------------------------------------------------------------------------------ independent rotation maths
@@ -290,6 +294,191 @@ def gs_rem(xy):
     return [b - a*d for a, b in zip(x, xy[3:])]
 
 
+# ------------------------------------------------------------------------------------------ att lines (mjs_attach) + oracle
+SPELL = ("quat", "axisangle", "xyaxes", "zaxis", "euler")      # index = mjtOrientation code
+PK = ("frame", "body", "site", "site-of-attached-spec")
+CK = ("body", "frame", "model")
+
+
+def zaxis_quat(v):
+    """minimal rotation taking e_z to v (independent of mjuu_z2quat): axis e_z x v, angle atan2(|e_z x v|, v_z)"""
+    n = math.sqrt(sum(x*x for x in v))
+    v = [x/n for x in v]
+    ax = [-v[1], v[0], 0.0]
+    s = math.hypot(ax[0], ax[1])
+    if s < 1e-10:
+        return [1.0, 0.0, 0.0, 0.0] if v[2] > 0 else [0.0, 1.0, 0.0, 0.0]
+    a = math.atan2(s, v[2])
+    return [math.cos(a/2), math.sin(a/2)*ax[0]/s, math.sin(a/2)*ax[1]/s, 0.0]
+
+
+def spelled_quat(ty, quat, aa, xy, z, e, degree, seq):
+    """unit quaternion denoted by a spelling (Python-only mathematics), or None when the spelling is degenerate"""
+    k = math.pi / 180 if degree else 1.0
+    if ty == 0:
+        n = math.sqrt(sum(x*x for x in quat))
+        return [x/n for x in quat] if n > 1e-6 else None
+    if ty == 1:
+        if math.sqrt(sum(x*x for x in aa[:3])) < 1e-6:
+            return None
+        return mat2quat(rodrigues(aa[:3], aa[3] * k))
+    if ty == 2:
+        if math.sqrt(sum(x*x for x in xy[:3])) < 1e-6 or math.sqrt(sum(x*x for x in gs_rem(xy))) < 1e-4:
+            return None
+        return mat2quat(gram_schmidt(xy[:3], xy[3:]))
+    if ty == 3:
+        if math.sqrt(sum(x*x for x in z)) < 1e-6:
+            return None
+        return zaxis_quat(z)
+    if any(c not in LETTERS for c in seq):
+        return None
+    return mat2quat(euler_matrix(seq, [a * k for a in e]))
+
+
+def rand_rec(rng, degree, ty=None, degenerate=0.0):
+    """random pose record: type, pos, quat, axisangle, xyaxes, zaxis, euler (all fields filled, `type` selects)"""
+    ty = rng.randint(0, 4) if ty is None else ty
+    pos = [rng.uniform(-0.5, 0.5) for _ in range(3)]
+    if rng.random() < 0.1:
+        pos = [0.0, 0.0, 0.0]
+    q = unit_quat(rng)
+    r = rng.random()
+    if r < 0.15:
+        q = [x * rng.choice((2.0, 0.5, 3.0)) for x in q]          # user quaternions need not be normalised
+    elif r < 0.25:
+        q = [1.0, 0.0, 0.0, 0.0]
+    aa = [rng.gauss(0, 1) * rng.choice((1, 3)) for _ in range(3)] + [rng.uniform(-350, 350) if degree else rng.uniform(-6, 6)]
+    xy = [rng.gauss(0, 1) for _ in range(6)]
+    z = [rng.gauss(0, 1) for _ in range(3)]
+    if rng.random() < 0.1:
+        z = [0.0, 0.0, rng.choice((1.0, -2.0))]
+    e = [rng.uniform(-350, 350) if degree else rng.uniform(-6, 6) for _ in range(3)]
+    if rng.random() < degenerate:
+        aa[:3] = [0.0, 0.0, 0.0]
+        xy[3:] = [2 * x for x in xy[:3]]
+        z = [0.0, 0.0, 0.0]
+    return {"type": ty, "pos": pos, "quat": q, "axisangle": aa, "xyaxes": xy, "zaxis": z, "euler": e}
+
+
+def rec_tokens(r):
+    return "%d %s" % (r["type"], " ".join(map(fb, r["pos"] + r["quat"] + r["axisangle"] + r["xyaxes"] + r["zaxis"] + r["euler"])))
+
+
+def rec_pose(r, comp):
+    q = spelled_quat(r["type"], r["quat"], r["axisangle"], r["xyaxes"], r["zaxis"], r["euler"], comp[0], comp[1])
+    return None if q is None else (r["pos"], q)
+
+
+def gen_att(ctx):
+    """every (attachment point, attached element) combination of mjs_attach x spelling of every pose on the way x
+    degree / eulerseq of host and child spec (independently) x nesting of the attachment point and of the observed body"""
+    rng = ctx.rng
+    n = 6000 if ctx.tier == "thorough" else 700
+    lines, meta, hist = [], [], {}
+    combos = [(pk, ck) for pk in range(4) for ck in range(3)]
+    for i in range(n):
+        pk, ck = combos[i % 12]
+        outer, inner = rng.randint(0, 1), rng.randint(0, 1)
+        host = (rng.randint(0, 1), [rng.choice(LETTERS) for _ in range(3)])
+        child = (rng.randint(0, 1), [rng.choice(LETTERS) for _ in range(3)]) if rng.random() < 0.7 else host
+        if rng.random() < 0.02:
+            bad = list(child[1])
+            bad[rng.randint(0, 2)] = 97
+            child = (child[0], bad)
+        # pk = 3: the spec the site was written in (its body is attached to the host before the site is used)
+        mid = (rng.randint(0, 1), [rng.choice(LETTERS) for _ in range(3)]) if rng.random() < 0.7 else host
+        pc = mid if pk == 3 else host
+        dg = 0.03
+        # the attachment point cycles through the five spellings so that each (pk, ck, spelling) is certainly hit
+        recs = [rand_rec(rng, pc[0], degenerate=dg), rand_rec(rng, pc[0], ty=(i // 12) % 5, degenerate=dg),
+                rand_rec(rng, child[0], degenerate=dg), rand_rec(rng, child[0], degenerate=dg), rand_rec(rng, child[0], degenerate=dg)]
+        lines.append("att %d %d %d %d %d %d %d %d %d %d %d %d %d %d %d %d %s" % (
+            pk, ck, outer, inner, host[0], host[1][0], host[1][1], host[1][2], child[0], child[1][0], child[1][1], child[1][2],
+            mid[0], mid[1][0], mid[1][1], mid[1][2], " ".join(rec_tokens(r) for r in recs)))
+        meta.append(("att", pk, ck, outer, inner, host, child, recs, mid))
+        key = "%s<-%s:%s" % (PK[pk], CK[ck], SPELL[recs[1]["type"]] if pk != 1 else "-")
+        hist[key] = hist.get(key, 0) + 1
+    lines += ["att 4 0 0 0 0 120 121 122 0 120 121 122 0 120 121 122 " + " ".join(rec_tokens(rand_rec(rng, 0)) for _ in range(5)),
+              "att 0 0 0 0 0 120 121 122 0 120 121 122 0 120 121 122 " + " ".join(rec_tokens(rand_rec(rng, 0)) for _ in range(4)),
+              "att 0 0 0 0 0 120 121 0 0 120 121 122 0 120 121 122 " + " ".join(rec_tokens(rand_rec(rng, 0)) for _ in range(5))]
+    meta += [("bad",)] * 3
+    ctx.extra["att_distribution"] = hist
+    return lines, meta
+
+
+def att_oracle(ctx, lines, outs, meta):
+    """the compiled pose of the attached body is the composition host point o attached frames o body, every orientation
+    being the rotation its spelling denotes under the compiler settings of the spec it was WRITTEN in"""
+    nfail, maxdev, nok, nerr = 0, 0.0, 0, 0
+
+    def fail(key, what, line, out, m):
+        nonlocal nfail
+        nfail += 1
+        if nfail <= 6:
+            ctx.oracle_failure("c36:" + key, what, {"line": line, "impl_output": out, "attachment_point": PK[m[1]], "attached": CK[m[2]],
+                                                   "outer_frame": m[3], "inner_frame": m[4], "host_degree_eulerseq": [m[5][0], "".join(map(chr, m[5][1]))],
+                                                   "child_degree_eulerseq": [m[6][0], "".join(map(chr, m[6][1]))],
+                                                   "site_spec_degree_eulerseq": [m[8][0], "".join(map(chr, m[8][1]))] if m[1] == 3 else None,
+                                                   "records(outer,point,attached-frame,inner,body)": m[7],
+                                                   "replay": "echo '<line>' | <c36_equiv harness>"})
+
+    for line, out, m in zip(lines, outs, meta):
+        if m[0] == "bad":
+            if out != "bad-op":
+                nfail += 1
+                ctx.oracle_failure("c36:malformed-accepted", "malformed op accepted", {"line": line, "impl_output": out})
+            continue
+        _, pk, ck, outer, inner, host, child, recs, mid = m
+        name = "attach:%s<-%s" % (PK[pk], CK[ck])
+        pc = mid if pk == 3 else host
+        if pk == 1 and ck == 0:
+            if out != "error attach":
+                fail(name + ":accepted", "a body was attached to a body (documented: frames only): " + out[:60], line, out, m)
+            continue
+        chain = []
+        if pk != 1:
+            if outer:
+                chain.append(rec_pose(recs[0], pc))
+            chain.append(rec_pose(recs[1], pc))
+        if ck == 1:
+            chain.append(rec_pose(recs[2], child))
+        if ck != 0 and inner:
+            chain.append(rec_pose(recs[3], child))
+        chain.append(rec_pose(recs[4], child))
+        if any(c is None for c in chain):
+            nerr += 1
+            if not out.startswith("error"):
+                # near-degenerate spellings (excluded from the pose comparison) may legitimately compile
+                if any(r["axisangle"][:3] == [0.0, 0.0, 0.0] and r["type"] in (1, 2, 3) for r in recs) or any(c not in LETTERS for c in child[1]):
+                    fail(name + ":degenerate-accepted", "a degenerate spelling on the way was accepted: " + out[:60], line, out, m)
+            continue
+        toks = out.split()
+        if len(toks) != 7:
+            # unused records may be degenerate without consequence; a used one was excluded above
+            fail(name + ":rejected", "valid attachment rejected: " + out[:80], line, out, m)
+            continue
+        v = [unb(t) for t in toks]
+        exp = chain[0]
+        for c in chain[1:]:
+            exp = compose(exp, c)
+        d = max(max(abs(a-b) for a, b in zip(v[:3], exp[0])), mdev(qmat(v[3:]), qmat(exp[1])))
+        maxdev = max(maxdev, d)
+        nok += 1
+        if not d <= 1e-10:
+            sp = SPELL[recs[1]["type"]] if pk != 1 else "-"
+            if pk == 3 and ((recs[1]["type"] in (1, 4) and mid[0] != host[0]) or (recs[1]["type"] == 4 and mid[1] != host[1])):
+                # attachToSite / attachFrameToSite resolve the site's spelling with the compiler of the spec that owns
+                # the site NOW (mjs_getSpec), not of the spec it was written in (site->compiler)
+                fail("attach:site-of-attached-spec:units", "a site written in a spec with degree=%d eulerseq=%s and attached to a host "
+                     "with degree=%d eulerseq=%s is used as attachment point: its %s spelling is resolved with the HOST's settings, "
+                     "the attached body is %g away from the site" % (mid[0], "".join(map(chr, mid[1])), host[0],
+                                                                     "".join(map(chr, host[1])), sp, d), line, out, m)
+                continue
+            fail(name + ":pose:" + sp, "pose of the attached body deviates by %g from the written-out composition "
+                 "(attachment point spelled as %s, host degree=%d, child degree=%d)" % (d, sp, host[0], child[0]), line, out, m)
+    ctx.extra["att_oracle"] = {"failures": nfail, "poses_compared": nok, "degenerate_cases": nerr, "max_pose_deviation": float("%.3g" % maxdev)}
+
+
 # ------------------------------------------------------------------------------------------ model pairs
 PROFILE = {"nbody": (2, 5), "plane": 0.0, "contacts": 0.0, "equalities": 0.0, "frictionloss": 0.0, "limits": 0.0,
            "static_body": 0.3, "mocap": 0.0, "sites": 0.9, "cameras": 0.3, "keys": 0.0, "pairs": 0.0, "excludes": 0.0,
@@ -487,6 +676,21 @@ def gen_pairs(ctx):
         tags.append("defaults")
         blocks.append("attach %d\n" % rng.randint(0, 2 ** 30))
         tags.append("attach")
+    # every entry point of mjs_attach (frame / site <- body / frame / model, body <- frame / model) x every spelling of
+    # the attachment point, each at least once per run; the rest of the scenario is random (gen_attach_case)
+    combos = [(pk, ck) for pk in (0, 2) for ck in (0, 1, 2)] + [(1, 1), (1, 2)]
+    hist = {}
+    for i in range(400 if thorough else 40):
+        pk, ck = combos[i % 8]
+        tag, A, Bx, Bq, nv = gen_attach_case(rng, {"pk": pk, "ck": ck, "ptype": (i // 8) % 5})
+        st = "qvel " + fmtv([rng.uniform(-1, 1) for _ in range(nv)])
+        for kind, B in (("attach", Bx), ("attachq", Bq)):
+            if B is not None:
+                blocks.append("apair 200 1\n%s\n%s\n%s\n" % (st, "\n".join(A), "\n".join(B)))
+                tags.append(kind + tag[6:])
+        for part in tag.split(":")[1:]:
+            hist[part] = hist.get(part, 0) + 1
+    ctx.extra["attach_scenarios"] = hist
     return blocks, tags
 
 
@@ -528,6 +732,366 @@ def gen_edits(rng, mdl):
     return edits
 
 
+# ------------------------------------------------------------------------------------------ attach pairs (apair)
+class Desc:
+    """one spec in the line format of harness/mjbuild.h"""
+    def __init__(self, comp):
+        self.lines = ["compiler degree %d" % comp[0], "compiler eulerseq %d %d %d" % tuple(comp[1])]
+        self.h = 0
+
+    def add(self, kind, parent=None, name=None):
+        self.h += 1
+        self.lines.append("%s %d" % (kind, self.h) + ("" if parent is None else " %d" % parent))
+        if name:
+            self.lines.append("name %d %s" % (self.h, name))
+        return self.h
+
+    def set(self, h, field, vals):
+        self.lines.append("set %d %s %s" % (h, field, vals if isinstance(vals, str) else fmtv(vals)))
+
+
+ALTNAME = {1: "axisangle", 2: "xyaxes", 3: "zaxis", 4: "euler"}
+
+
+def emit_pose(D, h, rec, comp, mode, pre=""):
+    """pose of an element: as spelled (in the units of `comp`) or, mode 'quat', as the quaternion computed in Python"""
+    D.set(h, pre + "pos", rec["pos"])
+    if mode == "spelled":
+        if rec["type"] == 0:
+            D.set(h, pre + "quat", rec["quat"])
+        else:
+            D.set(h, pre + "alt.type", "%d" % rec["type"])
+            D.set(h, pre + "alt." + ALTNAME[rec["type"]], rec[ALTNAME[rec["type"]]])
+    else:
+        D.set(h, pre + "quat", rec_pose(rec, comp)[1])
+
+
+def emit_node(D, node, body_h, frame_h, comp, mode, deco, hook=None):
+    """write a payload node into body `body_h`, inside frame `frame_h` (None: directly).  hook = {"site": node, "emit": f}:
+    f(D, body handle, frame handle of the site) is called once the body that holds that site has been written"""
+    k = node["kind"]
+    if k == "frame":
+        h = D.add("frame", body_h, deco(node["name"]))
+        emit_pose(D, h, node["rec"], comp, mode)
+        if frame_h is not None:
+            D.lines.append("setframe %d %d" % (h, frame_h))
+        for c in node["children"]:
+            emit_node(D, c, body_h, h, comp, mode, deco, hook)
+        return
+    h = D.add(k, body_h, deco(node["name"]))
+    if hook is not None and node is hook["site"]:
+        hook["found"] = (body_h, frame_h)
+    if k == "joint":
+        for f, v in node["sets"]:
+            D.set(h, f, v)
+        for f, v in node["unit"].items():
+            D.set(h, f, [x * math.pi / 180 for x in v] if (mode == "quat" and comp[0]) else v)
+    else:
+        emit_pose(D, h, node["rec"], comp, mode)
+        for f, v in node["sets"]:
+            D.set(h, f, v)
+    if frame_h is not None:
+        D.lines.append("setframe %d %d" % (h, frame_h))
+    if k == "body":
+        if node.get("inertial"):
+            it = node["inertial"]
+            D.set(h, "mass", [it["mass"]])
+            D.set(h, "inertia", it["inertia"])
+            D.set(h, "explicitinertial", "1")
+            emit_pose(D, h, it["rec"], comp, mode, pre="i")
+        for c in node["children"]:
+            emit_node(D, c, h, None, comp, mode, deco, hook)
+        if hook is not None and hook.get("found") and hook["found"][0] == h:
+            hook["emit"](D, h, hook["found"][1])
+            hook["found"] = None
+
+
+def walk(nodes):
+    for nd in nodes:
+        yield nd
+        yield from walk(nd.get("children", ()))
+
+
+def payload(rng, deg, tag, single):
+    """a small subtree written in a spec with compiler.degree = deg: bodies (every pose spelled at random, explicit
+    inertial frames with a spelled ialt), hinge / slide / ball joints whose ref / springref / range are in the spec's
+    angle unit, geoms, sites, cameras, frames inside bodies; `single`: exactly one top-level body"""
+    cnt = {"n": 0}
+
+    def nm(kind):
+        cnt["n"] += 1
+        return "%s%s%d" % (tag, kind, cnt["n"])
+
+    def ang(x):     # an angle of x degrees in the spec's unit
+        return x if deg else x * math.pi / 180
+
+    def leaf(kind):
+        nd = {"kind": kind, "name": nm(kind[0]), "rec": rand_rec(rng, deg), "sets": [], "children": []}
+        nd["rec"]["pos"] = [0.3 * x for x in nd["rec"]["pos"]]
+        if kind == "geom":
+            nd["sets"] = [("type", "%d" % rng.choice((E("mjGEOM_BOX"), E("mjGEOM_CAPSULE"), E("mjGEOM_ELLIPSOID")))),
+                          ("size", [rng.uniform(0.03, 0.1), rng.uniform(0.04, 0.15), rng.uniform(0.03, 0.1)]),
+                          ("contype", "0"), ("conaffinity", "0"), ("density", [rng.uniform(300, 2000)])]
+        elif kind == "site":
+            nd["sets"] = [("size", [0.02])]
+        return nd
+
+    def joint():
+        jt = rng.choice(("hinge", "hinge", "slide", "ball"))
+        nd = {"kind": "joint", "name": nm("j"), "jtype": jt, "children": [], "unit": {},
+              "sets": [("type", "%d" % E("mjJNT_" + jt.upper())), ("pos", [rng.uniform(-0.1, 0.1) for _ in range(3)]),
+                       ("axis", [rng.uniform(-1, 1), rng.uniform(-1, 1), rng.uniform(0.2, 1)]), ("damping", [rng.uniform(0.05, 0.5)])]}
+        if jt == "hinge":
+            ref = rng.uniform(-60, 60) if rng.random() < 0.7 else 0.0
+            nd["unit"]["ref"] = [ang(ref)]
+            if rng.random() < 0.6:
+                nd["sets"].append(("stiffness", [rng.uniform(0.5, 5)]))
+                nd["unit"]["springref"] = [ang(ref + rng.uniform(-40, 40))]
+            if rng.random() < 0.6:      # wide limits: never reached within the horizon, but compiled into jnt_range
+                nd["sets"].append(("limited", "1"))
+                nd["unit"]["range"] = [ang(ref - rng.uniform(250, 340)), ang(ref + rng.uniform(250, 340))]
+        elif jt == "ball" and rng.random() < 0.6:
+            nd["sets"].append(("limited", "1"))
+            nd["unit"]["range"] = [0.0, ang(rng.uniform(140, 175))]
+        elif jt == "slide" and rng.random() < 0.5:
+            nd["sets"].append(("limited", "1"))
+            nd["sets"].append(("range", [-rng.uniform(4, 6), rng.uniform(4, 6)]))
+        return nd
+
+    def body(depth):
+        b = {"kind": "body", "name": nm("b"), "rec": rand_rec(rng, deg), "sets": [], "children": []}
+        if rng.random() < 0.3:
+            i = sorted((rng.uniform(0.01, 0.05) for _ in range(3)), reverse=True)
+            i[0] = min(i[0], 0.9 * (i[1] + i[2]))
+            b["inertial"] = {"mass": rng.uniform(0.5, 2.0), "inertia": i, "rec": rand_rec(rng, deg)}
+            b["inertial"]["rec"]["pos"] = [0.1 * x for x in b["inertial"]["rec"]["pos"]]
+        inner = None
+        if rng.random() < 0.4:
+            inner = {"kind": "frame", "name": nm("f"), "rec": rand_rec(rng, deg), "sets": [], "children": []}
+        kids = [joint(), leaf("geom")]
+        if rng.random() < 0.4:
+            kids.append(leaf("geom"))
+        kids.append(leaf("site"))
+        if rng.random() < 0.3:
+            kids.append(leaf("camera"))
+        if depth < 2 and rng.random() < (0.7 if depth == 0 else 0.4):
+            kids.append(body(depth + 1))
+        if inner is not None:
+            b["children"].append(inner)
+        for kd in kids:
+            (inner["children"] if inner is not None and rng.random() < 0.5 else b["children"]).append(kd)
+        return b
+
+    tops = [body(0)]
+    if not single:
+        if rng.random() < 0.5:
+            tops.append(body(1))
+        if rng.random() < 0.5:
+            fr = {"kind": "frame", "name": nm("f"), "rec": rand_rec(rng, deg), "sets": [], "children": [body(1)]}
+            if rng.random() < 0.5:
+                fr["children"].append(leaf("site"))
+            tops.append(fr)
+        if rng.random() < 0.4:
+            tops.append(leaf("site"))
+        if rng.random() < 0.3:
+            tops.append(leaf("geom"))
+    return tops
+
+
+def refs_lines(D, nodes, deco, rng_choices):
+    """actuators and sensors that refer to payload elements by name (the attachment has to re-target them)"""
+    for kind, name, target, extra in rng_choices:
+        if kind == "actuator":
+            h = D.add("actuator", None, deco(name))
+            D.set(h, "trntype", "%d" % E("mjTRN_JOINT"))
+            D.set(h, "target", deco(target))
+            D.set(h, "gear", [extra])
+        else:
+            h = D.add("sensor", None, deco(name))
+            D.set(h, "type", "%d" % E("mjSENS_" + extra))
+            D.set(h, "objtype", "%d" % (E("mjOBJ_JOINT") if extra == "JOINTPOS" else E("mjOBJ_SITE")))
+            D.set(h, "objname", deco(target))
+
+
+def pick_refs(rng, nodes, tag):
+    out = []
+    js = [n for n in walk(nodes) if n["kind"] == "joint" and n["jtype"] != "ball"]
+    ss = [n for n in walk(nodes) if n["kind"] == "site"]
+    if js and rng.random() < 0.7:
+        out.append(("actuator", tag + "act", rng.choice(js)["name"], rng.uniform(0.5, 2)))
+    if js and rng.random() < 0.5:
+        out.append(("sensor", tag + "sj", rng.choice(js)["name"], "JOINTPOS"))
+    if ss and rng.random() < 0.7:
+        out.append(("sensor", tag + "sp", rng.choice(ss)["name"], rng.choice(("FRAMEPOS", "FRAMEZAXIS", "FRAMEXAXIS"))))     # not FRAMEQUAT: q and -q are the same orientation
+    return out
+
+
+def ndof(nodes):
+    return sum({"hinge": 1, "slide": 1, "ball": 3}[n["jtype"]] for n in walk(nodes) if n["kind"] == "joint")
+
+
+def gen_attach_case(rng, force=None):
+    """one attachment scenario -> (tag, attach description, inline description with the same spellings or None,
+    inline description with Python-computed quaternions and radians, nv)"""
+    force = force or {}
+    pk = force.get("pk", rng.randint(0, 2))                      # 0 frame, 1 body, 2 site
+    ck = force.get("ck", rng.randint(1, 2) if pk == 1 else rng.randint(0, 2))
+    ptype = force.get("ptype", rng.randint(0, 4))                # spelling of the attachment point
+    same = rng.random() < 0.45                                   # child written with the host's compiler settings
+    host = (rng.randint(0, 1), [rng.choice(LETTERS) for _ in range(3)])
+    child = host if same else (rng.randint(0, 1), [rng.choice(LETTERS) for _ in range(3)])
+    deepcopy = rng.randint(0, 1)
+    pre, suf = rng.choice((("a_", ""), ("", "_x"), ("p", "s"), ("", "")))
+    outer = rng.random() < 0.4 and pk != 1
+    where = rng.choice(("base", "hb2", "world")) if pk != 0 or True else "base"
+    # second use of the same child spec at a second attachment point (needs a deep copy), or a grandchild spec attached to
+    # a site / frame of the child BEFORE the child is attached to the host
+    twice = deepcopy == 1 and (pre or suf) and rng.random() < 0.3
+    grand = (not twice) and rng.random() < 0.3
+    tops = payload(rng, child[0], "c", single=(ck == 0))
+    refs = pick_refs(rng, tops, "c")
+    prec = rand_rec(rng, host[0], ty=ptype)
+    orec = rand_rec(rng, host[0])
+    grec = rand_rec(rng, child[0])
+    p2rec = rand_rec(rng, host[0])
+    gcomp = child if rng.random() < 0.5 else (rng.randint(0, 1), [rng.choice(LETTERS) for _ in range(3)])
+    gtops = payload(rng, gcomp[0], "g", single=True) if grand else []
+    gsite = None
+    if grand:
+        cands = [n for b in walk(tops) if b["kind"] == "body" for n in walk(b["children"]) if n["kind"] == "site"]
+        gsite = rng.choice(cands) if cands else None
+        if gsite is None:
+            grand, gtops = False, []
+    gpre = "g_"
+    hgear = rng.uniform(0.5, 2)
+
+    def deco(n):
+        return pre + n + suf
+
+    def deco2(n):
+        return "q" + n + "r"
+
+    def host_part(D, mode):
+        """host elements; returns handles (body of the attachment point, frame handle or None, second point likewise)"""
+        base = D.add("body", 0, "base")
+        D.set(base, "pos", [0, 0, 1])
+        j = D.add("joint", base, "hj")
+        D.set(j, "type", "%d" % E("mjJNT_HINGE"))
+        D.set(j, "axis", [0, 1, 0])
+        g = D.add("geom", base, "hg")
+        D.set(g, "size", [0.1])
+        D.set(g, "contype", "0")
+        D.set(g, "conaffinity", "0")
+        hb2 = D.add("body", base, "hb2")
+        D.set(hb2, "pos", [0.2, 0.1, -0.3])
+        j2 = D.add("joint", hb2, "hj2")
+        D.set(j2, "type", "%d" % E("mjJNT_SLIDE"))
+        D.set(j2, "axis", [1, 0, 0.5])
+        g2 = D.add("geom", hb2, "hg2")
+        D.set(g2, "size", [0.07])
+        D.set(g2, "contype", "0")
+        D.set(g2, "conaffinity", "0")
+        pb = {"base": base, "hb2": hb2, "world": 0}[where]
+        fo = None
+        if outer:
+            fo = D.add("frame", pb, "hfo")
+            emit_pose(D, fo, orec, host, mode)
+        pt = None
+        if pk == 0:
+            pt = D.add("frame", pb, "hpoint")
+            emit_pose(D, pt, prec, host, mode)
+            if fo is not None:
+                D.lines.append("setframe %d %d" % (pt, fo))
+        elif pk == 2:
+            st = D.add("site", pb, "hpoint")
+            emit_pose(D, st, prec, host, mode)
+            if fo is not None:
+                D.lines.append("setframe %d %d" % (st, fo))
+        f2 = None
+        if twice:
+            f2 = D.add("frame", base, "hpoint2")
+            emit_pose(D, f2, p2rec, host, mode)
+        a = D.add("actuator", None, "hact")
+        D.set(a, "trntype", "%d" % E("mjTRN_JOINT"))
+        D.set(a, "target", "hj")
+        D.set(a, "gear", [hgear])
+        return pb, fo, pt, f2, base
+
+    # ---- A: the specs joined by mjs_attach
+    A = Desc(host)
+    host_part(A, "spelled")
+    C = Desc(child)
+    cg = None
+    if ck == 1:
+        cg = C.add("frame", 0, "cg")
+        emit_pose(C, cg, grec, child, "spelled")
+    for nd in tops:
+        emit_node(C, nd, 0, cg, child, "spelled", lambda n: n)
+    refs_lines(C, tops, lambda n: n, refs)
+    a_lines = A.lines + ["end", "child"] + C.lines + ["end"]
+    if grand:
+        G = Desc(gcomp)
+        for nd in gtops:
+            emit_node(G, nd, 0, None, gcomp, "spelled", lambda n: n)
+        a_lines += ["child"] + G.lines + ["end", "attach 1 site %s 2 body %s %s ~" % (gsite["name"], gtops[0]["name"], gpre)]
+    a_lines.append("deepcopy 0 %d" % deepcopy)
+    cname = {0: tops[0]["name"], 1: "cg", 2: "~"}[ck]
+    pname = where if pk == 1 else "hpoint"
+    a_lines.append("attach 0 %s %s 1 %s %s %s %s" % (PK[pk], pname, CK[ck], cname, pre or "~", suf or "~"))
+    if twice:
+        a_lines.append("attach 0 frame hpoint2 1 %s %s q r" % (CK[ck], cname))
+    a_lines.append("done")
+
+    # ---- inline descriptions
+    def inline(mode):
+        hcomp = host if mode == "spelled" else (0, host[1])
+        D = Desc(hcomp)
+        pb, fo, pt, f2, base = host_part(D, mode)
+        uses = [(deco, pb, pt if pk == 0 else None)] + ([(deco2, base, f2)] if twice else [])
+        for dc, body_h, point_frame in uses:
+            fr = point_frame
+            if dc is deco and pk == 2:      # the site written out as a frame at the same place
+                fr = D.add("frame", body_h)
+                emit_pose(D, fr, prec, host, mode)
+                if fo is not None:
+                    D.lines.append("setframe %d %d" % (fr, fo))
+            if ck == 1:
+                g = D.add("frame", body_h, dc("cg"))
+                emit_pose(D, g, grec, child, mode)
+                if fr is not None:
+                    D.lines.append("setframe %d %d" % (g, fr))
+                fr = g
+            elif ck == 2 and mode == "spelled":
+                # mjs_attach wraps the children of the attached model's world in an identity frame; accumulating an
+                # identity frame re-normalises quaternions (not bit-neutral), so the exact inline description has it too
+                g = D.add("frame", body_h)
+                if fr is not None:
+                    D.lines.append("setframe %d %d" % (g, fr))
+                fr = g
+            hook = None
+            if grand:
+                # the grandchild's root body mounted at the child's site: a frame with the site's pose in the site's body
+                def mount(D, bh, sfh, dc=dc):
+                    f = D.add("frame", bh)
+                    emit_pose(D, f, gsite["rec"], child, mode)
+                    if sfh is not None:
+                        D.lines.append("setframe %d %d" % (f, sfh))
+                    emit_node(D, gtops[0], bh, f, gcomp, mode, lambda n: dc(gpre + n))
+                hook = {"site": gsite, "emit": mount}
+            for nd in tops:
+                emit_node(D, nd, body_h, fr, child, mode, dc, hook)
+        for dc, _, _ in uses:
+            refs_lines(D, tops, dc, refs)
+        return D.lines + ["end", "done"]
+
+    tag = "attach:%s<-%s:%s:%s%s%s%s" % (PK[pk], CK[ck], SPELL[ptype] if pk != 1 else "-", "same-compiler" if child == host else
+                                        "deg%d->deg%d" % (child[0], host[0]), ":deepcopy" if deepcopy else "", ":twice" if twice else "",
+                                        ":nested" if grand else "")
+    nv = 2 + ndof(tops) * (2 if twice else 1) + ndof(gtops)
+    exact = inline("spelled") if (child == host and (not grand or gcomp == host)) else None
+    return tag, a_lines, exact, inline("quat"), nv
+
+
 # rewritings after which every compiled array must be bit-identical (the compile performs the same float operations or
 # operations that are exact: x * 1, x + 0)
 EXACT_STATIC = ("defaults", "attach", "frames:identity-child", "setconst")
@@ -555,7 +1119,7 @@ def pairs_oracle(ctx, impl):
             nerr += 1
             if not out.startswith("error"):
                 ctx.oracle_failure("c36:pairs:format", "unexpected output " + out[:100], rp)
-            elif "A:ok" in out or "B:ok" in out or tag in ("defaults", "attach"):
+            elif "A:ok" in out or "B:ok" in out or tag == "defaults" or tag.startswith("attach"):
                 # one description compiles and its rewriting does not: the rewriting changed the meaning
                 nfail += 1
                 if nfail <= 6:
@@ -573,6 +1137,8 @@ def pairs_oracle(ctx, impl):
         s["n"] += 1
         s["maxdev"] = max(s["maxdev"], dev)
         s["maxdev_initial_pose"] = max(s["maxdev_initial_pose"], dev0)
+        if kind.startswith("attach"):
+            s["maxdev_compiled_values"] = max(s.get("maxdev_compiled_values", 0.0), numdev)
         if static == "same":
             s["static_same"] += 1
         bad = None
@@ -588,6 +1154,9 @@ def pairs_oracle(ctx, impl):
             bad = ("trajectory", "poses of kept bodies / sites deviate by %g (> %g) within 200 steps" % (dev, TOL_KIND.get(kind, TOL_TRAJ)))
         elif kind in EXACT_STATIC and static != "same":
             bad = ("static", "compiled arrays differ although the rewriting is exact: " + static[:200])
+        elif kind.startswith("attach") and not (numdev <= TOL_ATTACH_STATIC):
+            bad = ("compiled-values", "compiled positions / orientations / joint references / ranges / inertias deviate by %g (> %g)"
+                   % (numdev, TOL_ATTACH_STATIC))
         elif nmatched == 0 and nqb > 0:     # jointed bodies are never fused / discarded: their names must be found
             bad = ("nothing-compared", "no body name of B exists in A")
         if bad:
@@ -608,8 +1177,12 @@ def pairs_oracle(ctx, impl):
 
 def run(ctx):
     ctx.rule = ("orient lines (type x degree x Euler sequence incl. invalid letters, degenerate axes, exact frames per branch), "
-                "frame / frame2 lines, model pairs per rewriting (spelling, degree, frames random / identity-child, fusestatic, "
-                "discardvisual, setconst, defaults, attach); a case is distinct by its full text; non-trivial = accepted op")
+                "frame / frame2 lines, att lines (attachment point frame / body / site / site of an attached spec x attached body / "
+                "frame / model x spelling of every pose on the way x degree and eulerseq of host, child and site spec x nesting), "
+                "model pairs per rewriting (spelling, degree, frames random / identity-child, fusestatic, "
+                "discardvisual, setconst, defaults, attach: every mjs_attach entry point x spelling of the attachment point x "
+                "same / different compiler x deep copy x prefix / suffix x attached twice x nested attachment); "
+                "a case is distinct by its full text; non-trivial = accepted op")
     r = common.sh([sys.executable, os.path.join(common.VERIF, "translate", "c35_userutil.py")], timeout=900)
     ctx.oblige("translate/c35_userutil.py regenerates lean/MjProof/Gen/UserUtil.lean from the working tree", "translator",
                r.returncode == 0, (r.stdout + r.stderr)[-1500:])
@@ -631,6 +1204,16 @@ def run(ctx):
         return
     orient_oracle(ctx, lines, outs, meta)
     ctx.sample({"op": lines[7][:200], "impl_and_model_output": outs[7]})
+    alines, ameta = gen_att(ctx)
+    ctx.differential("mjs_attach pose model (Model/Attach.lean: dispatch on attachment point x attached element, site frame, "
+                     "world frame of an attached model, per-origin compiler) vs mjs_attach + mj_compile, bitwise",
+                     [drv], [impl], alines, keyf=lambda l: l if l.startswith("att ") and len(l.split()) == 137 else None)
+    rc, aouts, err = ctx.run_lines([impl], alines)
+    if rc != 0 or len(aouts) != len(alines):
+        ctx.oracle_failure("c36:crash", "c36_equiv crashed on att lines (rc=%s)" % rc, {"stderr": err[-400:]})
+        return
+    att_oracle(ctx, alines, aouts, ameta)
+    ctx.sample({"op": alines[3][:160] + " ...", "impl_and_model_output": aouts[3]})
     pairs_oracle(ctx, impl)
     ctx.extra["tolerances"] = {"trajectory_relative": TOL_TRAJ, "rotation_matrix": TOL_ROT * 20}
     if ctx.tier == "thorough":
